@@ -81,7 +81,7 @@ def main(tier, seed):
             if 65536 <= v < 2 ** 32:
                 extra.add(v)
     extra.update([2 ** 31 - 1, 2 ** 31, 2 ** 31 + 1, 2 ** 32 - 1, 2 ** 32 - 2, 65536, 65537, 99999, 100001])
-    nrand = 20000 if tier == "quick" else 400000
+    nrand = 20000 if tier == "quick" else 3000000
     while len(extra) < nrand:
         extra.add(rng.randrange(65536, 2 ** 32))
     extra = sorted(extra)
